@@ -192,6 +192,9 @@ func (b *ResponseMatcherBuilder) addFallback(fallbackOutbound config.FunctionOrS
 
 func (b *ResponseMatcherBuilder) Build() (matcher *ResponseMatcher, err error) {
 	var m ResponseMatcher
+	if len(b.rules) > consts.MaxMatchSetLen {
+		return nil, fmt.Errorf("too many dns response routing match sets: %v exceeds the limit %v", len(b.rules), consts.MaxMatchSetLen)
+	}
 	// Build domainMatcher.
 	m.domainMatcher = domain_matcher.NewAhocorasickSlimtrie(b.log, consts.MaxMatchSetLen)
 	for _, domains := range b.simulatedDomainSet {
